@@ -233,4 +233,41 @@ theorem cjk_round_div10 :
     (zhCjk.roundChar.all fun p => p.2 % 10 == 0) = true ∧ (jaCjk.roundChar.all fun p => p.2 % 10 == 0) = true := by
   decide
 
+/-! ### table consistency of the regenerated maps -/
+
+/-- a round word that is also an ordinal / cardinal key carries the same value in both maps (`except` = keys left out) -/
+def roundConsistent (c : Culture) (except : List Str) : Bool :=
+  c.lang.round.all fun p =>
+    except.contains p.1 ||
+      ((match lookup c.lang.ordinal p.1 with | some v => v == p.2 | none => true) &&
+       (match lookup c.lang.cardinal p.1 with | some v => v == p.2 | none => true))
+
+/-- **`round_map_consistent`**: in the English, Spanish, French, Portuguese, Italian and Dutch configurations every
+word of `RoundNumberMap` that is also a key of `OrdinalNumberMap` / `CardinalNumberMap` has the same value there (the
+end-word scan multiplies by the round value, the stack walk adds the ordinal / cardinal value: a disagreement makes
+`twee miljardste` and `tweemiljardste` differ). -/
+theorem round_map_consistent_en : roundConsistent en [] = true := by decide +kernel
+theorem round_map_consistent_es : roundConsistent es [] = true := by decide +kernel
+theorem round_map_consistent_fr : roundConsistent fr [] = true := by decide +kernel
+theorem round_map_consistent_pt : roundConsistent pt [] = true := by decide +kernel
+theorem round_map_consistent_it : roundConsistent it [] = true := by decide +kernel
+theorem round_map_consistent_nl : roundConsistent nl [] = true := by decide +kernel
+
+theorem round_map_consistent :
+    roundConsistent en [] = true ∧ roundConsistent es [] = true ∧ roundConsistent fr [] = true ∧
+      roundConsistent pt [] = true ∧ roundConsistent it [] = true ∧ roundConsistent nl [] = true :=
+  ⟨round_map_consistent_en, round_map_consistent_es, round_map_consistent_fr, round_map_consistent_pt,
+    round_map_consistent_it, round_map_consistent_nl⟩
+
+/- German, full statement (fails): roundConsistent de [] = true. -/
+/-- German: consistent except for the key `milliard` … -/
+theorem round_map_consistent_de_partial : roundConsistent de [[109, 105, 108, 108, 105, 97, 114, 100]] = true := by
+  decide +kernel
+
+/-- … whose cardinal value is 10^8 while its round value is 10^9 (finding `de-de:round-map:milliard`; the real word
+`milliarde` is consistent). -/
+theorem german_milliard_witness :
+    lookup de.lang.round [109, 105, 108, 108, 105, 97, 114, 100] = some 1000000000 ∧
+    lookup de.lang.cardinal [109, 105, 108, 108, 105, 97, 114, 100] = some 100000000 := by decide +kernel
+
 end RTV.Num
